@@ -2422,6 +2422,10 @@ expr4:
                 type_of_locals_ptr += max_num_locals;
                 runtime_locals_ptr += current_number_of_locals;
                 max_num_locals = current_number_of_locals = 0;
+#ifdef NEOLITH_VERIF
+                VERIF_CTRACE ("literal.enter.type", type_of_locals_ptr - type_of_locals, type_of_locals_size);
+                VERIF_CTRACE ("literal.enter.name", locals_ptr - locals, locals_size);
+#endif
                 push_function_context();
                 current_function_context->num_parameters = -1;
                 exact_types = TYPE_ANY;
@@ -2465,6 +2469,11 @@ expr4:
                 locals_ptr -= current_number_of_locals;
                 type_of_locals_ptr -= max_num_locals;
                 runtime_locals_ptr -= current_number_of_locals;
+#ifdef NEOLITH_VERIF
+                VERIF_CTRACE ("literal.leave.saved", current_number_of_locals, max_num_locals);
+                VERIF_CTRACE ("literal.leave.type", type_of_locals_ptr - type_of_locals, type_of_locals_size);
+                VERIF_CTRACE ("literal.leave.name", locals_ptr - locals, locals_size);
+#endif
                 reactivate_current_locals();
             }
     |   L_NEW_FUNCTION_OPEN ':' ')'
